@@ -173,6 +173,51 @@ def cases(rng, tier):
     return cs
 
 
+# ---------------------------------------------------------------- concurrent API calls on a live server
+import engine
+import sysprop as S
+import sysrun
+
+
+class ConcurrentDeletes:
+    """two DeletePeer calls for the same established peer at once (its OnClose is slow): the registry is a map, so exactly
+    one call finds the key"""
+    no_model = True
+
+    def __init__(self, sid, stagger):
+        self.sid, self.stagger = sid, stagger
+        self.tag = "concurrent-deletes.%d" % stagger
+        self.remote_id = 0x0A000002
+
+    def scenario(self):
+        op = S.frame(S.OPEN, S.open_body()).hex()
+        ka = S.frame(S.KEEPALIVE).hex()
+        st = [["dial", "c1"], ["recv", "c1", 1, 1500], ["send", "c1", op, 0], ["send", "c1", ka, 0], ["recv", "c1", 2, 1500], ["sleep", 30],
+              ["delete2", self.stagger], ["sleep", 50]]
+        return {"id": self.sid, "local_as": 65001, "remote_as": 65000, "local_id": 0x0A000001, "hold": 90, "passive": True,
+                "idle_hold_ms": 3000, "connect_retry_ms": 3000, "caps": [], "on_open": None, "handler": [], "est_writes": [],
+                "onclose_delay_ms": 300, "steps": st}
+
+    def model_case(self):
+        return None
+
+    def check(self, r):
+        res = [a["err"] for a in r["api"] if a["name"] == "delete2"]
+        if "TIMEOUT" in res:
+            return ["concurrent DeletePeer calls did not return"]
+        if len(res) == 2 and res.count("") != 1:
+            return ["two concurrent DeletePeer calls for one registered peer returned %s: exactly one must succeed, the other must "
+                    "report that the peer does not exist" % res]
+        return []
+
+
+def sys_part(tier, rng, rep, replay):
+    items = [ConcurrentDeletes(k, st) for k, st in enumerate((0, 20, 100))]
+    cov = sysrun.run_convs(PID, items, rep, extra_check=lambda c, e, o, r: c.check(r), par=4)
+    cov["rule"] = "two concurrent DeletePeer calls on an established peer whose OnClose takes 300 ms: exactly one succeeds"
+    return cov
+
+
 def main(tier, seed, replay=None):
     import sys
-    return fnprop.run(sys.modules[__name__], tier, seed, replay)
+    return engine.run_property(sys.modules[__name__], tier, seed, replay)
